@@ -8,8 +8,11 @@ It answers every request datagram the SUT sends: assembles Block1 payloads by
 [offset, offset+len) intervals, serves Block2 slices of a representation that
 carries an ETag, and takes its environment decisions from the schedule.
 
-schedule = {
-  "mid0", "tok0",
+A schedule describes one transfer (the per-transfer fields at top level) or
+several concurrent ones from the same client context to the same server
+("transfers": [per-transfer fields, ...], "order": [transfer index, ...]).
+
+per-transfer fields = {
   "code":  request method (1 GET, 2 POST, 3 PUT, 5 FETCH),
   "N":     request body length,   "C": client maximum block size exponent (remote.maximum_block_size_exp),
   "reps":  [{"len": M, "etag": bool}, {"len": M', "etag": True}]   representation 1 and (after an ETag change) 2,
@@ -21,31 +24,71 @@ schedule = {
                         its own with "ackcode" (2.04 or 2.01), Block1 n/M=0/szx; the body is complete when the block
                         with the request's M=0 has arrived.  ["a"] atomic, ["s"] stateless, anything else mixed,
   "ackcode": 68 | 65,
-  "net":   {"<i>": "dropreq"|"dropresp"|"dupresp"|"dupreq"}   fate of the i-th request datagram the SUT sends (1-based),
   "query": ["v=2", ...] | None, "accept": n | None      further options of the request (part of its cache key),
-  "fault": None | {"kind": "b1num"|"b1numlo"|"b1more"|"b1cont"|"b2num"|"b2numlo"|"b2skip"|"b2prev"|"b2short"|"b2empty"|
-                           "b2over"|"etag", "nth": n,
-           b1num / b1numlo: the acknowledgement names NUM+1 / NUM-1 (lo: only where NUM > 0);
-           b2num / b2numlo: the right bytes under NUM+1 / NUM-1;  b2skip / b2prev: the next / the previous block is
-           served instead of the requested one (number and bytes consistent; prev: only from the second block on);
-           etag: representation 2 from the n-th Block2 response on; whether representation 1 / 2 carry an ETag is
-           reps[i]["etag"] (independent: ETag/ETag, none/ETag, ETag/none, none/none),
-                   "short": bytes, "over": "one"|"double", "repeat": bool},
-           b2short / b2empty / b2over: a Block2 block that announces more blocks (M=1) but carries 1..size-1 bytes /
-           no payload at all / more than its size (size+1, or two whole blocks; only where two more blocks exist);
-           with "repeat" the server keeps doing that on every later such block,
-  "dedup": bool   (the server answers a repeated message ID from its response cache, RFC 7252 4.5)
+  "b2req": szx | None     the application's request carries Block2 0/0/szx (the client's own first Block2 request),
+  "fault": None | {"kind": ..., "nth": n, ...}    see below,
   "con":   bool
 }
+top level only = {
+  "mid0", "tok0",
+  "net":   {"<i>": fate}   fate of the i-th request datagram the SUT sends (1-based, over all transfers):
+           "dropreq" | "dropresp" | "dupresp" | "dupreq" |
+           "slow"  the response is delivered SLOW units later (after the first retransmission of a CON request, which
+                   is answered as well: two copies arrive, the older one last),
+           "late"  a second copy of the response is delivered LATE units later (in the middle of later exchanges),
+  "lossy": {"p": probability, "seed": n, "maxrun": k}   every request datagram without an explicit fate draws one with
+           probability p (seeded); no exchange loses more than k transmissions (k <= MAX_RETRANSMIT),
+  "order": [t, t, ...]   with several transfers: the transfer whose pending request the server answers next (a request
+           waits until it is its transfer's turn, but no longer than WAIT units -- confirmable requests leave the
+           client one at a time (NSTART = 1), so only non-confirmable transfers have requests pending side by side;
+           transfers that have completed are skipped; afterwards first come first served),
+  "dedup": bool   (the server answers a repeated message ID from its response cache, RFC 7252 4.5)
+  "horizon": virtual seconds
+}
+
+Faults ("kind"):
+  b1num / b1numlo: the acknowledgement names NUM+1 / NUM-1 (lo: only where NUM > 0);
+  b1more / b1cont: more-flag / 2.31 on the final acknowledgement;
+  b2num / b2numlo: the right bytes under NUM+1 / NUM-1;  b2skip / b2prev: the next / the previous block is
+  served instead of the requested one (number and bytes consistent; prev: only from the second block on);
+  etag: representation 2 from the n-th Block2 response on; whether representation 1 / 2 carry an ETag is
+  reps[i]["etag"] (independent: ETag/ETag, none/ETag, ETag/none, none/none); a representation 2 that ends at or
+  before the offset asked for is answered with 4.00 (x = "shrunk");
+  b2short / b2empty / b2over ("short": bytes, "over": "one"|"double", "repeat": bool): a Block2 block that announces
+  more blocks (M=1) but carries 1..size-1 bytes / no payload at all / more than its size (size+1, or two whole
+  blocks; only where two more blocks exist); with "repeat" the server keeps doing that on every later such block;
+  e1 ("ecode", "echo": bool, "hint": szx | None, "size1": n | None, "elen"): the n-th Block1 request is not written
+  but answered with the error response ecode (4.08, 4.13, 4.00, 5.xx; diagnostic payload of elen bytes), with the
+  Block1 option echoed (NUM / M=0 / hint or the usual exponent) or without, 4.13 possibly with a Size1 hint; the
+  server forgets the body under assembly;
+  e2 ("ecode", "elen"): the n-th Block2 occasion, if it is a continuation request, is answered with that error;
+  etsome: from the n-th Block2 occasion (continuations only) on the ETag of the *same* representation is flipped
+  (present -> absent, absent -> present): ETag on some blocks only;
+  b2grow: a Block2 request (continuation, or the application's own Block2 0/0/szx) is answered one size exponent
+  *above* the requested one (only where the offset is a multiple of the larger size and szx < 6): the bytes are the
+  right ones, the server violates "never larger than requested";
+  b1grow: the acknowledgement of a Block1 request that is not the last one names the exponent above the request's;
+  b2big ("by": exponent steps, default up to 6): "restart bigger" -- a continuation request whose offset is no
+  multiple of the next larger block size is answered with the block of a larger size (requested exponent + by,
+  at most 6) that contains that offset: NUM = floor(offset / larger size), bytes and more-flag consistent with
+  that number -- the block starts before the offset asked for (wrong block number), final or not.
 
 Occasions: Block1 acknowledgements and Block2 responses (a response carrying a
 Block2 option, or the first response of the representation) are counted from 0
-over the requests the server processes; a fault fires on the first applicable
-occasion with count >= nth whose response is going to be delivered, once.
+over the requests the server processes for that transfer; a fault fires on the
+first applicable occasion with count >= nth whose response is going to be
+delivered, once.
+
+Requests are attributed to a transfer by their Uri-Path (one transfer: c05;
+several: c05/t<i>) -- an RFC 7959 server keyed by the request can do no
+better, the client uses no Request-Tag.  Transfer i (1-based `tr`) has its own
+canonical strings: request body cid 0x5a+i-1, representations 0xa1/0xb2 + 2(i-1),
+diagnostic payloads 0xc3+i-1.
 
 Events are uniform records (FIELDS).  Bodies are self-describing (drive.canon)."""
 
 import asyncio
+import random as _random
 
 from . import wire
 from .sut import World
@@ -54,7 +97,11 @@ from .drive import canon, identify, units
 
 REQ_CID = 0x5A
 REP_CIDS = (0xA1, 0xB2)
+ERR_CID = 0xC3
 DELAY = 2  # units of 2**-10 s between a request datagram and the server's answer
+SLOW = 2560  # 2.5 s: after the first retransmission (ACK_TIMEOUT 2 s, random factor pinned to 1)
+LATE = 9 * 1024
+WAIT = 2 * DELAY + 1  # how long a request waits for the turn of its transfer (its predecessor's answer takes DELAY)
 
 FIELDS = {
     "k": "", "t": 0, "q": 0, "code": 0,
@@ -62,9 +109,14 @@ FIELDS = {
     "plen": 0, "cid": -1, "off": -1, "cok": True,
     "size1": -1, "len": -1, "etag": -1, "rid": 0, "rt": False, "x": "", "c": -1,
     "rk": 0,   # req: 1 = same method and options (all but Block1/Block2/Size1/Size2) as the first request, 2.. = others
+    "tr": 1,   # the transfer the event belongs to (1-based)
+    "pok": True,  # done: every 8-byte cell of the returned body is the cell at that position of one of the transfer's
+                  # representations (a body mixed from two representations at a block boundary still has this)
 }
 
 NOT_IN_KEY = (wire.BLOCK1, wire.BLOCK2, wire.SIZE1, wire.SIZE2)
+LEN_FAULTS = ("b2short", "b2empty", "b2over")
+ENV_ERRORS = ("e1", "e2", "shrunk")
 
 
 def size_of(szx):
@@ -83,6 +135,57 @@ def locate(payload, cids, hint):
     return cid, off, cok
 
 
+def cells_ok(body, cids):
+    """every 8-byte cell (the last one possibly partial) is the cell at that position of one of the canonical strings"""
+    n = len(body)
+    if n == 0:
+        return True
+    cands = [canon(c, 0, n) for c in cids]
+    for i in range(0, n, 8):
+        if not any(c[i : i + 8] == body[i : i + 8] for c in cands):
+            return False
+    return True
+
+
+def transfers_of(sched):
+    if sched.get("transfers"):
+        return [dict(t) for t in sched["transfers"]], True
+    keys = ("code", "N", "C", "reps", "s1", "s2", "ack", "ackcode", "query", "accept", "fault", "con", "b2req")
+    return [{k: sched[k] for k in keys if k in sched}], False
+
+
+class Transfer:
+    """What the reference server knows about one transfer (keyed by the request's Uri-Path)."""
+
+    def __init__(self, idx, d, multi):
+        self.idx = idx
+        self.tr = idx + 1
+        self.d = d
+        self.path = ["c05", "t%d" % idx] if multi else ["c05"]
+        self.reqcid = REQ_CID + idx
+        self.repcids = (REP_CIDS[0] + 2 * idx, REP_CIDS[1] + 2 * idx)
+        self.errcid = ERR_CID + idx
+        self.N = d["N"]
+        self.C = d["C"]
+        self.reps = d.get("reps") or [{"len": 0, "etag": True}]
+        self.s1 = list(d.get("s1") or [6])
+        self.s2 = list(d.get("s2") or [6])
+        self.ackstyle = list(d.get("ack") or ["a"])
+        self.ackcode = d.get("ackcode", wire.CHANGED)
+        self.fault = dict(d["fault"]) if d.get("fault") else None
+        self.body = None      # bytearray under assembly (Block1)
+        self.rep = None       # current representation {rid, cid, len, etag}
+        self.nb1 = 0
+        self.nb2 = 0
+        self.fired = None
+        self.keys = []        # distinct (method, options) of the requests seen, in order of appearance
+        self.same = 0
+        self.lastoff = None
+        self.flooded = False
+        self.done = False
+        self.etflip = False
+
+
 def run(sched):
     w = World(mid0=sched.get("mid0", 0), tok0=sched.get("tok0", 0))
     events = []
@@ -99,54 +202,55 @@ def run(sched):
         events.append(e)
         return e
 
-    N = sched["N"]
-    C = sched["C"]
-    reps = sched.get("reps") or [{"len": 0, "etag": True}]
-    s1 = list(sched.get("s1") or [6])
-    s2 = list(sched.get("s2") or [6])
-    ackstyle = list(sched.get("ack") or ["a"])
-    ackcode = sched.get("ackcode", wire.CHANGED)
+    tds, multi = transfers_of(sched)
+    trs = [Transfer(i, d, multi) for i, d in enumerate(tds)]
+    bypath = {tuple(t.path): t for t in trs}
     net = {int(k): v for k, v in (sched.get("net") or {}).items()}
-    fault = dict(sched["fault"]) if sched.get("fault") else None
+    lossy = sched.get("lossy")
+    lrng = _random.Random(lossy.get("seed", 0)) if lossy else None
     dedup = sched.get("dedup", True)
+    order = list(sched.get("order") or [])
 
     # ---------------------------------------------------------------- reference server
     srv = {
-        "body": None,      # bytearray under assembly (Block1)
-        "rep": None,       # current representation {rid, cid, len, etag}
-        "nb1": 0, "nb2": 0,
         "cache": {},       # (mid, token) -> (datagram, fields)
         "delivered": set(),
         "seen": [],        # datagrams the SUT sent
-        "fired": None,
-        "keys": [],        # distinct (method, options) of the requests seen, in order of appearance
+        "lostrun": {},     # (mid, token) -> transmissions of that exchange lost so far (lossy mode)
+        "pending": [],     # requests waiting for their transfer's turn: (transfer, decoded message, datagram index)
     }
 
     def pick(lst, i):
         return lst[i] if i < len(lst) else lst[-1]
 
-    def new_rep(idx):
-        d = reps[idx] if idx < len(reps) else {"len": reps[-1]["len"] + 7, "etag": True}
+    def new_rep(T, idx):
+        d = T.reps[idx] if idx < len(T.reps) else {"len": T.reps[-1]["len"] + 7, "etag": True}
         rid = idx + 1
-        rep = {"rid": rid, "cid": REP_CIDS[idx], "len": d["len"], "etag": (0xE0 + rid) if d.get("etag", True) else -1}
-        srv["rep"] = rep
-        ev("rep", rid=rid, len=rep["len"], cid=rep["cid"], etag=rep["etag"])
+        rep = {"rid": rid, "cid": T.repcids[idx], "len": d["len"], "etag": (0xE0 + rid) if d.get("etag", True) else -1}
+        T.rep = rep
+        ev("rep", tr=T.tr, rid=rid, len=rep["len"], cid=rep["cid"], etag=rep["etag"])
 
-    def fault_wants(kind, count, deliverable):
+    def fault_wants(T, kind, count, deliverable):
+        fault = T.fault
         if fault is None or not deliverable or fault["kind"] != kind:
             return False
-        if srv["fired"] is not None and not (fault.get("repeat") and kind in ("b2short", "b2empty", "b2over")):
+        if T.fired is not None and not (fault.get("repeat") and kind in LEN_FAULTS):
             return False
         return count >= fault.get("nth", 0)
 
-    def fire(kind):
-        srv["fired"] = kind
+    def error_response(T, kind, f, options=()):
+        fault = T.fault
+        elen = fault.get("elen", 0)
+        out = canon(T.errcid, 0, elen)
+        T.fired = kind
+        return fault.get("ecode", wire.code(4, 8)), list(options), out, dict(f, x=kind, cid=T.errcid if elen else -1, off=0 if elen else -1)
 
-    def process(m, deliverable):
+    def process(T, m, deliverable):
         """One request as an RFC 7959 server sees it -> (code, options, payload, fields)."""
         b1 = wire.opt(m, wire.BLOCK1)
         b2 = wire.opt(m, wire.BLOCK2)
         payload = m["payload"]
+        fault = T.fault
         f = {}
         options = []
         final = True
@@ -159,137 +263,277 @@ def run(sched):
                 return wire.code(4, 0), [], b"", {"x": "bad-szx"}
             if more and len(payload) != size:
                 return wire.code(4, 0), [], b"", {"x": "bad-size"}
+            count = T.nb1
+            if fault_wants(T, "e1", count, deliverable):
+                # the server cannot (4.13, 5.03) or will not (4.08, 4.00, 5.00) take this block: nothing is written,
+                # the body under assembly is forgotten
+                T.nb1 += 1
+                T.body = None
+                eopts = []
+                if fault.get("echo"):
+                    hint = fault.get("hint")
+                    aszx = min(szx, pick(T.s1, count)) if hint is None else hint
+                    f.update(b1n=num, b1m=0, b1s=aszx)
+                    eopts.append((wire.BLOCK1, wire.block(num, False, aszx)))
+                if fault.get("size1") is not None:
+                    f.update(size1=fault["size1"])
+                    eopts.append((wire.SIZE1, wire.uint(fault["size1"])))
+                return error_response(T, "e1", f, eopts)
             if off == 0:
-                srv["body"] = bytearray()
-            if srv["body"] is None or off > len(srv["body"]):
+                T.body = bytearray()
+            if T.body is None or off > len(T.body):
                 return wire.code(4, 8), [], b"", {"x": "incomplete"}
-            srv["body"][off : off + len(payload)] = payload
-            count = srv["nb1"]
-            srv["nb1"] += 1
-            aszx = min(szx, pick(s1, count))
+            T.body[off : off + len(payload)] = payload
+            T.nb1 += 1
+            aszx = min(szx, pick(T.s1, count))
             anum, amore = num, more
-            if fault_wants("b1num", count, deliverable):
+            if fault_wants(T, "b1num", count, deliverable):
                 anum, x = num + 1, "b1num"
-                fire(x)
-            if not x and num > 0 and fault_wants("b1numlo", count, deliverable):
+                T.fired = x
+            if not x and num > 0 and fault_wants(T, "b1numlo", count, deliverable):
                 anum, x = num - 1, "b1numlo"
-                fire(x)
-            if more and pick(ackstyle, count) == "s":
+                T.fired = x
+            if not x and more and szx < 6 and fault_wants(T, "b1grow", count, deliverable):
+                aszx, x = szx + 1, "b1grow"
+                T.fired = x
+            if more and pick(T.ackstyle, count) == "s":
                 # stateless style: this block has been enacted on its own
                 f.update(b1n=anum, b1m=0, b1s=aszx)
-                return ackcode, [(wire.BLOCK1, wire.block(anum, False, aszx))], b"", dict(f, x=x)
+                return T.ackcode, [(wire.BLOCK1, wire.block(anum, False, aszx))], b"", dict(f, x=x)
             if more:
                 f.update(b1n=anum, b1m=1, b1s=aszx)
                 return wire.CONTINUE, [(wire.BLOCK1, wire.block(anum, True, aszx))], b"", dict(f, x=x)
-            del srv["body"][off + len(payload) :]
-            body = bytes(srv["body"])
-            cid, _, cok = locate(body, [REQ_CID], 0)
-            ev("asm", len=len(body), cid=cid, cok=cok and (len(body) == 0 or cid == REQ_CID))
-            if not x and fault_wants("b1more", 10**6, deliverable):
+            del T.body[off + len(payload) :]
+            body = bytes(T.body)
+            cid, _, cok = locate(body, [T.reqcid], 0)
+            ev("asm", tr=T.tr, len=len(body), cid=cid, cok=cok and (len(body) == 0 or cid == T.reqcid))
+            if not x and fault_wants(T, "b1more", 10**6, deliverable):
                 amore, x = True, "b1more"
-                fire(x)
+                T.fired = x
             cont = False
-            if not x and fault_wants("b1cont", 10**6, deliverable):
+            if not x and fault_wants(T, "b1cont", 10**6, deliverable):
                 cont, x = True, "b1cont"
-                fire(x)
+                T.fired = x
             f.update(b1n=anum, b1m=int(amore), b1s=aszx)
             options.append((wire.BLOCK1, wire.block(anum, amore, aszx)))
             if cont:
                 return wire.CONTINUE, options, b"", dict(f, x=x)
-        elif b2 is None or (wire.unblock(b2)[0] == 0 and srv["rep"] is None):
+        elif b2 is None or (wire.unblock(b2)[0] == 0 and T.rep is None):
             body = bytes(payload)
-            cid, _, cok = locate(body, [REQ_CID], 0)
-            ev("asm", len=len(body), cid=cid, cok=cok and (len(body) == 0 or cid == REQ_CID))
+            cid, _, cok = locate(body, [T.reqcid], 0)
+            ev("asm", tr=T.tr, len=len(body), cid=cid, cok=cok and (len(body) == 0 or cid == T.reqcid))
         else:
             final = False  # a Block2 continuation (also: block 0 asked for again)
         if final:
-            new_rep(0)
-        if srv["rep"] is None:
+            new_rep(T, 0)
+        if T.rep is None:
             return wire.code(4, 8), [], b"", {"x": "no-representation"}
         # ---- serve the representation
-        count = srv["nb2"]
-        srv["nb2"] += 1
-        if not final and not x and fault_wants("etag", count, deliverable):
-            new_rep(1)
+        count = T.nb2
+        T.nb2 += 1
+        if not final and not x and fault_wants(T, "e2", count, deliverable):
+            return error_response(T, "e2", {})
+        if not final and not x and fault_wants(T, "etag", count, deliverable):
+            new_rep(T, 1)
             x = "etag"
-            fire(x)
-        if not final and not x and srv["rep"]["rid"] == 1 and keyno(m) != 1:
+            T.fired = x
+        if not final and not x and fault_wants(T, "etsome", count, deliverable):
+            T.etflip = True
+            x = "etsome"
+            T.fired = x
+        if not final and not x and T.rep["rid"] == 1 and keyno(T, m) != 1:
             # a continuation that asks for something else than the request did (other method / options): an RFC 7959
             # server answers it from what *it* asks for -- another representation
-            new_rep(1)
+            new_rep(T, 1)
             x = "otherkey"
-        rep = srv["rep"]
+        rep = T.rep
         M = rep["len"]
-        want = pick(s2, count)
+        want = pick(T.s2, count)
+        grow = False
         if b2 is not None:
             rnum, _, rszx = wire.unblock(b2)
             if rszx > 6:
                 return wire.code(4, 0), [], b"", {"x": "bad-szx"}
             szx = min(want, rszx)
             off = rnum * size_of(rszx)
+            if not x and rszx < 6 and off % size_of(rszx + 1) == 0 and off < M and fault_wants(T, "b2grow", count, deliverable):
+                szx = rszx + 1
+                grow = True
+                x = "b2grow"
+                T.fired = x
         else:
             szx = want
             off = 0
+        big = False
+        if b2 is not None and not x and not final and rszx < 6 and off % size_of(rszx + 1) != 0 and off < M \
+                and fault_wants(T, "b2big", count, deliverable):
+            # "restart bigger": the block of a larger size that contains the offset asked for -- it starts before it
+            szx = min(6, rszx + max(1, fault.get("by", 6)))
+            off = (off // size_of(szx)) * size_of(szx)
+            big = True
+            x = "b2big"
+            T.fired = x
         size = size_of(szx)
         code = wire.CONTENT if m["code"] in (1, 5) else wire.CHANGED
-        if rep["etag"] >= 0:
-            options.append((wire.ETAG, bytes([rep["etag"]])))
-        f.update(etag=rep["etag"], rid=rep["rid"])
+        etag = rep["etag"]
+        if T.etflip:
+            etag = -1 if etag >= 0 else 0xE0 + rep["rid"]
+        if etag >= 0:
+            options.append((wire.ETAG, bytes([etag])))
+        f.update(etag=etag, rid=rep["rid"])
         if b2 is None and M <= size:
             out = canon(rep["cid"], 0, M)
             return code, options, out, dict(f, x=x, cid=rep["cid"] if M else -1, off=0 if M else -1)
         if off >= M and not (off == 0 and M == 0):
-            return wire.code(4, 0), [], b"", {"x": "beyond-end"}
+            # (the Block1 option of a final block whose representation cannot be served this way is dropped too)
+            return wire.code(4, 0), [], b"", {"x": "shrunk" if x == "etag" else "beyond-end"}
         num = off // size
         more = off + size < M
         plen = min(size, M - off)
-        if not x and more and fault_wants("b2skip", count, deliverable):
+        if not x and more and fault_wants(T, "b2skip", count, deliverable):
             off += size
             num += 1
             more = off + size < M
             plen = min(size, M - off)
             x = "b2skip"
-            fire(x)
-        if not x and fault_wants("b2num", count, deliverable):
+            T.fired = x
+        if not x and fault_wants(T, "b2num", count, deliverable):
             num += 1
             x = "b2num"
-            fire(x)
-        if not x and num > 0 and fault_wants("b2numlo", count, deliverable):
+            T.fired = x
+        if not x and num > 0 and fault_wants(T, "b2numlo", count, deliverable):
             num -= 1
             x = "b2numlo"
-            fire(x)
-        if not x and off >= size and fault_wants("b2prev", count, deliverable):
+            T.fired = x
+        if not x and off >= size and fault_wants(T, "b2prev", count, deliverable):
             off -= size
             num = off // size
             more = True
             plen = size
             x = "b2prev"
-            fire(x)
-        if not x and more and fault_wants("b2short", count, deliverable):
+            T.fired = x
+        if not x and more and fault_wants(T, "b2short", count, deliverable):
             plen = max(1, min(size - 1, fault.get("short", size - 1)))
             x = "b2short"
-            fire(x)
-        if not x and more and fault_wants("b2empty", count, deliverable):
+            T.fired = x
+        if not x and more and fault_wants(T, "b2empty", count, deliverable):
             plen = 0
             x = "b2empty"
-            fire(x)
-        if not x and off + 2 * size < M and fault_wants("b2over", count, deliverable):
+            T.fired = x
+        if not x and off + 2 * size < M and fault_wants(T, "b2over", count, deliverable):
             plen = 2 * size if fault.get("over") == "double" else size + 1
             x = "b2over"
-            fire(x)
+            T.fired = x
         out = canon(rep["cid"], off, plen)
         options.append((wire.BLOCK2, wire.block(num, more, szx)))
         f.update(b2n=num, b2m=int(more), b2s=szx, cid=rep["cid"] if plen else -1, off=off if plen else -1)
         return code, options, out, dict(f, x=x)
 
-    def keyno(m):
+    def keyno(T, m):
         key = (m["code"], tuple((n, v) for n, v in m["options"] if n not in NOT_IN_KEY))
-        if key not in srv["keys"]:
-            srv["keys"].append(key)
-        return srv["keys"].index(key) + 1
+        if key not in T.keys:
+            T.keys.append(key)
+        return T.keys.index(key) + 1
+
+    def transfer_of(m):
+        return bypath.get(tuple(v.decode("utf8", "replace") for v in wire.opts(m, wire.URI_PATH)), trs[0])
 
     def inject(data):
         w.net.inject(state["sock"], data, sockaddr(1))
+
+    def deliver(data, rf, key, delay, at_delivery=False, dup=False):
+        """hand a response datagram to the network; the `resp` event is recorded when the server sends it (the
+        network delivers in order DELAY later) or, for slow / late copies, when it arrives"""
+        if at_delivery:
+            def arrive():
+                ev("resp", **dict(rf, rt=key in srv["delivered"]))
+                srv["delivered"].add(key)
+                inject(data)
+
+            w.loop.call_later(delay / 1024.0, arrive)
+        else:
+            ev("resp", **dict(rf, rt=dup or key in srv["delivered"]))
+            srv["delivered"].add(key)
+            w.loop.call_later(delay / 1024.0, inject, data)
+
+    def respond(T, m, deliverable):
+        code, options, payload, rf = process(T, m, deliverable)
+        rf = dict(rf, code=code, plen=len(payload), q=1, tr=T.tr)
+        ty = wire.ACK if m["type"] == wire.CON else wire.NON
+        mid = m["mid"] if m["type"] == wire.CON else (m["mid"] + 0x4000) & 0xFFFF
+        return wire.encode(ty, code, mid, m["token"], options, payload), rf
+
+    def fate_of(i, key):
+        fate = net.get(i)
+        if fate is not None:
+            return fate
+        if lossy and lrng.random() < lossy.get("p", 0.2):
+            fate = lrng.choice(["dropreq", "dropresp", "dupresp", "dupreq", "slow", "late"])
+            if fate in ("dropreq", "dropresp"):
+                if srv["lostrun"].get(key, 0) >= lossy.get("maxrun", 3):
+                    return "ok"
+                srv["lostrun"][key] = srv["lostrun"].get(key, 0) + 1
+            return fate
+        return "ok"
+
+    def serve(T, m, i):
+        key = (m["mid"], m["token"])
+        fate = fate_of(i, key)
+        if fate in ("dropreq", "dropresp", "slow") and m["type"] != wire.CON:
+            fate = "ok" if fate != "slow" else "slowdeliver"    # nothing retransmits a NON request: it is only delayed
+        if fate == "dropreq":
+            ev("lost", tr=T.tr, x="req")
+            return
+        deliverable = fate != "dropresp"
+        if dedup and key in srv["cache"]:
+            data, rf = srv["cache"][key]
+        else:
+            data, rf = respond(T, m, deliverable)
+            srv["cache"][key] = (data, rf)
+        if fate == "dropresp":
+            ev("lost", **rf)
+            return
+        if fate in ("slow", "slowdeliver"):
+            deliver(data, rf, key, SLOW, at_delivery=True)
+            return
+        deliver(data, rf, key, DELAY)
+        if fate == "dupresp":
+            deliver(data, rf, key, DELAY + 1, dup=True)
+        elif fate == "late":
+            deliver(data, rf, key, LATE, at_delivery=True)
+        elif fate == "dupreq":
+            data2, rf2 = (data, rf) if dedup else respond(T, m, True)
+            deliver(data2, rf2, key, DELAY + 1, dup=True)
+
+    def wake():
+        srv["wake"] = None
+        pump(force=True)
+
+    def pump(force=False):
+        """answer pending requests: the transfer named next in `order` first, first come first served afterwards.
+        A request waits for the turn of its transfer at most WAIT units: the request of the transfer named next may be
+        unable to come (confirmable requests to one peer leave the client one at a time, NSTART = 1)."""
+        while srv["pending"]:
+            while order and trs[order[0] % len(trs)].done and not any(p[0] is trs[order[0] % len(trs)] for p in srv["pending"]):
+                order.pop(0)
+            pos = 0
+            if order:
+                T = trs[order[0] % len(trs)]
+                pos = next((j for j, p in enumerate(srv["pending"]) if p[0] is T), None)
+                if pos is None:
+                    if not force:
+                        if srv.get("wake") is None:
+                            srv["wake"] = w.loop.call_later(WAIT / 1024.0, wake)
+                        return      # its next request is on the way (or its completion will skip it)
+                    pos = 0
+                else:
+                    order.pop(0)
+            force = False
+            if srv.get("wake") is not None:
+                srv["wake"].cancel()      # (the patience starts anew with every answer)
+                srv["wake"] = None
+            T, m, i = srv["pending"].pop(pos)
+            serve(T, m, i)
 
     def on_sent(rec):
         try:
@@ -300,6 +544,9 @@ def run(sched):
         if not (1 <= m["code"] < 32):
             ev("other", code=m["code"], x=wire.TYPE_NAMES[m["type"]])
             return
+        T = transfer_of(m)
+        if wire.opt(m, wire.REQUEST_TAG) is not None:
+            srv["rtag"] = srv.get("rtag", 0) + 1
         rt = rec["data"] in srv["seen"]
         srv["seen"].append(rec["data"])
         i = len(srv["seen"])
@@ -314,55 +561,25 @@ def run(sched):
         if b2 is not None:
             n_, m_, s_ = wire.unblock(b2)
             f.update(b2n=n_, b2m=int(m_), b2s=s_)
-        cid, off, cok = locate(m["payload"], [REQ_CID], hint)
+        cid, off, cok = locate(m["payload"], [T.reqcid], hint)
         sz1 = wire.opt(m, wire.SIZE1)
-        ev("req", q=1, code=m["code"], plen=len(m["payload"]), cid=cid, off=off, cok=cok, rt=rt, rk=keyno(m),
+        ev("req", tr=T.tr, q=1, code=m["code"], plen=len(m["payload"]), cid=cid, off=off, cok=cok, rt=rt, rk=keyno(T, m),
            size1=-1 if sz1 is None else wire.from_uint(sz1), **f)
         # a client that keeps asking for the same block is cut off: no more answers (it then runs into its timeout)
         if b2 is not None and b1 is None and not rt:
             o2 = f["b2n"] * size_of(f["b2s"])
-            srv["same"] = srv.get("same", 0) + 1 if srv.get("lastoff") == o2 else 0
-            srv["lastoff"] = o2
-        if srv.get("same", 0) > 4 or i > 4000:
-            if not srv.get("flooded"):
-                ev("flood", x="same-block" if srv.get("same", 0) > 4 else "datagrams")
-            srv["flooded"] = True
+            T.same = T.same + 1 if T.lastoff == o2 else 0
+            T.lastoff = o2
+        if T.same > 4 or i > 4000:
+            if not T.flooded:
+                ev("flood", tr=T.tr, x="same-block" if T.same > 4 else "datagrams")
+            T.flooded = True
             return
-        fate = net.get(i, "ok")
-        if fate == "dropreq":
-            ev("lost", x="req")
+        if rt and order and any(p[0] is T for p in srv["pending"]):
+            # a retransmission of a request that is still waiting for its turn: the waiting one will be answered
             return
-        key = (m["mid"], m["token"])
-        deliverable = fate != "dropresp"
-        if dedup and key in srv["cache"]:
-            data, rf = srv["cache"][key]
-        else:
-            code, options, payload, rf = process(m, deliverable)
-            rf = dict(rf, code=code, plen=len(payload), q=1)
-            ty = wire.ACK if m["type"] == wire.CON else wire.NON
-            mid = m["mid"] if m["type"] == wire.CON else (m["mid"] + 0x4000) & 0xFFFF
-            data = wire.encode(ty, code, mid, m["token"], options, payload)
-            srv["cache"][key] = (data, rf)
-        if fate == "dropresp":
-            ev("lost", **rf)
-            return
-        ev("resp", **dict(rf, rt=key in srv["delivered"]))
-        srv["delivered"].add(key)
-        w.loop.call_later(DELAY / 1024.0, inject, data)
-        if fate == "dupresp":
-            ev("resp", **dict(rf, rt=True))
-            w.loop.call_later((DELAY + 1) / 1024.0, inject, data)
-        elif fate == "dupreq":
-            if dedup:
-                data2, rf2 = data, rf
-            else:
-                code, options, payload, rf2 = process(m, True)
-                rf2 = dict(rf2, code=code, plen=len(payload), q=1)
-                ty = wire.ACK if m["type"] == wire.CON else wire.NON
-                mid = m["mid"] if m["type"] == wire.CON else (m["mid"] + 0x4000) & 0xFFFF
-                data2 = wire.encode(ty, code, mid, m["token"], options, payload)
-            ev("resp", **dict(rf2, rt=True))
-            w.loop.call_later((DELAY + 1) / 1024.0, inject, data2)
+        srv["pending"].append((T, m, i))
+        pump()
 
     w.net.on_sent = on_sent
 
@@ -373,32 +590,39 @@ def run(sched):
 
         ctx = await w.make_context(site=None)
         state["sock"] = ctx._verif["sock"]
-        kw = {}
-        if not sched.get("con", True):
-            kw["transport_tuning"] = type("VT", (TransportTuning,), {"reliability": False})()
-        if sched.get("query"):
-            kw["uri_query"] = tuple(sched["query"])
-        if sched.get("accept") is not None:
-            kw["accept"] = sched["accept"]
-        msg = Message(code=Code(sched.get("code", 2)), uri_path=["c05"], payload=canon(REQ_CID, 0, N), **kw)
-        msg.remote = w.remote(ctx, 1)
-        msg.remote.maximum_block_size_exp = C
-        ev("submit", q=1, code=int(msg.code), len=N, cid=REQ_CID if N else -1, c=C)
-        req = ctx.request(msg, handle_blockwise=True)
+        for T in trs:
+            d = T.d
+            kw = {}
+            if not d.get("con", True):
+                kw["transport_tuning"] = type("VT", (TransportTuning,), {"reliability": False})()
+            if d.get("query"):
+                kw["uri_query"] = tuple(d["query"])
+            if d.get("accept") is not None:
+                kw["accept"] = d["accept"]
+            if d.get("b2req") is not None:
+                kw["block2"] = (0, False, d["b2req"])
+            msg = Message(code=Code(d.get("code", 2)), uri_path=T.path, payload=canon(T.reqcid, 0, T.N), **kw)
+            msg.remote = w.remote(ctx, 1)
+            msg.remote.maximum_block_size_exp = T.C
+            ev("submit", tr=T.tr, q=1, code=int(msg.code), len=T.N, cid=T.reqcid if T.N else -1, c=T.C)
+            req = ctx.request(msg, handle_blockwise=True)
 
-        def done_cb(fut):
-            if fut.cancelled():
-                ev("done", q=1, x="cancelled")
-            elif fut.exception() is not None:
-                ev("done", q=1, x=type(fut.exception()).__name__)
-            else:
-                res = fut.result()
-                body = bytes(res.payload)
-                cid, off, cok = locate(body, list(REP_CIDS), 0)
-                ev("done", q=1, x="resp", code=int(res.code), len=len(body), plen=len(body), cid=cid, off=off,
-                   cok=cok and (len(body) == 0 or off == 0))
+            def done_cb(fut, T=T):
+                T.done = True
+                if fut.cancelled():
+                    ev("done", tr=T.tr, q=1, x="cancelled")
+                elif fut.exception() is not None:
+                    ev("done", tr=T.tr, q=1, x=type(fut.exception()).__name__)
+                else:
+                    res = fut.result()
+                    body = bytes(res.payload)
+                    cid, off, cok = locate(body, list(T.repcids) + [T.errcid], 0)
+                    ev("done", tr=T.tr, q=1, x="resp", code=int(res.code), len=len(body), plen=len(body), cid=cid, off=off,
+                       cok=cok and (len(body) == 0 or off == 0), pok=cells_ok(body, T.repcids))
+                if srv["pending"]:
+                    pump()
 
-        req.response.add_done_callback(done_cb)
+            req.response.add_done_callback(done_cb)
         await w.loop.settle()
         await w.loop.drain(horizon=sched.get("horizon", 300))
         for c in w.loop.exceptions:
@@ -409,8 +633,9 @@ def run(sched):
         meta = {
             "loop_exceptions": [repr(c.get("exception") or c.get("message")) for c in w.loop.exceptions],
             "log_errors": [r.getMessage() for r in w.logcap.errors()],
-            "fault_fired": srv["fired"],
+            "fault_fired": trs[0].fired if not multi else [T.fired for T in trs],
             "datagrams": len(srv["seen"]),
+            "request_tag_datagrams": srv.get("rtag", 0),
         }
         try:
             await asyncio.wait_for(ctx.shutdown(), 10)
